@@ -41,6 +41,9 @@ func NewClientServerStream(ctx context.Context) *ClientServerStream {
 }
 
 func (s *ClientServerStream) Close(err error) {
+	// like gRPC, deliver headers staged with SetHeader along with the final status
+	// when the handler returns without having sent any header or message
+	_ = (&serverStream{s}).SendHeader(nil)
 	s.headerM.Lock()
 	s.closeErr = err
 	s.headerM.Unlock()
